@@ -486,6 +486,14 @@ func Execute(s *Scenario, dir string) (res *Result) {
 	}
 	x.rig.Install(cps)
 	defer x.rig.Close()
+	if s.Engine == "exp" && len(cps) > 0 {
+		// The experimental engine takes its checkpoints from the chain parameters it is given; the package-level list
+		// (config.Checkpoints, which a deployment always fills with the main-net values whatever network is configured) is
+		// none of its business. Here the two differ, as they do on any network other than main-net.
+		far := chainhash.Hash{0xc0, 0xff, 0xee}
+		config.Checkpoints = []chaincfg.Checkpoint{{Height: 9000000, Hash: &far}}
+		x.count("scenarios_whose_package_level_checkpoint_list_differs_from_the_chain_parameters", 1)
+	}
 	// nodes
 	single := false
 	for i, ns := range s.Nodes {
